@@ -44,6 +44,34 @@ def run(task):
             if isinstance(ex, (KeyboardInterrupt, SystemExit)):
                 raise
             solver_exc = "%s: %s" % (type(ex).__name__, str(ex)[:200])
+        # one parser object used for all strings of the case, with the lazily produced trees of an input only drawn
+        # after the next input has been started (parse() returns a generator)
+        shared, pending = EarleyParser(g), None
+
+        def start_shared(s):
+            gen = shared.parse(s)
+            return gen, [next(gen)]
+
+        def finish(p):
+            ps, gen, first = p
+            return lambda: [DerivationTree.from_parse_tree(t) for t in first + list(itertools.islice(gen, case.get("max_trees", 20) - 1))]
+        for s in strs:
+            try:
+                started = start_shared(s)
+            except BaseException as ex:
+                if isinstance(ex, (KeyboardInterrupt, SystemExit)):
+                    raise
+                started = None
+                err = ex
+
+                def reraise(err=err):
+                    raise err
+                rows.append(dict(record(reraise), nt="<start>", s=pj.cps(s), api="earley-shared"))
+            if pending is not None:
+                rows.append(dict(record(finish(pending)), nt="<start>", s=pj.cps(pending[0]), api="earley-shared"))
+            pending = (s,) + started if started else None
+        if pending is not None:
+            rows.append(dict(record(finish(pending)), nt="<start>", s=pj.cps(pending[0]), api="earley-shared"))
         for s in strs:
             def earley():
                 return [DerivationTree.from_parse_tree(t)
